@@ -1113,9 +1113,18 @@ func (em *emitter) emitCondition(cond ast.Expression) {
 					op = invertedOperatorType(op)
 				}
 				if em.typ(lenArg).Kind() == reflect.String { // len is optimized for strings only.
-					x := em.emitExpr(lenArg, em.typ(lenArg))
+					// The operands are evaluated in the order in which they
+					// appear in the source.
+					var x, y int8
+					var ky bool
 					typ := em.typ(expr)
-					y, ky := em.emitExprK(expr, typ)
+					if name1 == "len" {
+						x = em.emitExpr(lenArg, em.typ(lenArg))
+						y, ky = em.emitExprK(expr, typ)
+					} else {
+						y, ky = em.emitExprK(expr, typ)
+						x = em.emitExpr(lenArg, em.typ(lenArg))
+					}
 					var condition runtime.Condition
 					switch op {
 					case ast.OperatorEqual:
